@@ -14,7 +14,16 @@ coq_makefile -f _CoqProject -o Makefile >/dev/null
 timeout 6000 make -k -j16 || echo "WARNING: some Coq files did not compile (see above); the affected checks will report it" >&2
 if [ $COQCHK = 1 ]; then
   mkdir -p ../evidence
-  mods=$(ls Props/*.v | sed 's|/|.|; s|\.v$||; s|^|JF.|')
-  ( ulimit -s unlimited; timeout 3000 coqchk -silent -o -Q . JF $mods > ../evidence/coqchk.txt 2>&1 ) || echo "coqchk did not finish cleanly (see evidence/coqchk.txt)" >&2
+  # independent re-check of every Props module and everything it depends on (stdlib and libraries included), one
+  # coqchk process per module, eight at a time; the axiom summaries are concatenated into evidence/coqchk.txt
+  rm -rf ../evidence/coqchk.d; mkdir -p ../evidence/coqchk.d
+  # Props/C02.v is not re-checked by coqchk: it re-evaluates the reflexive proofs of Coq-Interval without the VM and
+  # does not finish within 50 minutes (measured); that file is checked by coqc (make) only.
+  echo "JF.Props.C02 SKIPPED (coqchk does not finish the Coq-Interval proofs within 50 minutes; checked by coqc only)" >> ../evidence/coqchk.d/STATUS
+  ls Props/*.v | grep -v '^Props/C02\.v$' | sed 's|/|.|; s|\.v$||; s|^|JF.|' | xargs -P 8 -I{} sh -c \
+    'ulimit -s unlimited; if timeout 1800 coqchk -silent -o -Q . JF {} > ../evidence/coqchk.d/{}.txt 2>&1; then echo "{} checked" >> ../evidence/coqchk.d/STATUS; else echo "{} FAILED" >> ../evidence/coqchk.d/STATUS; fi'
+  ( for f in ../evidence/coqchk.d/JF.*.txt; do echo "== $(basename $f .txt)"; cat $f; done; sort ../evidence/coqchk.d/STATUS ) > ../evidence/coqchk.txt
+  rm -rf ../evidence/coqchk.d
+  grep -q FAILED ../evidence/coqchk.txt && echo "coqchk did not finish cleanly for some module (see evidence/coqchk.txt)" >&2
 fi
 echo "setup done"
